@@ -182,6 +182,49 @@ theorem listing_refusals (t : Listing) (e : List (List Char) × NodeKind) (he : 
       List.any_eq_true.2 ⟨e, List.mem_filter.2 ⟨he, by simp [hl]⟩, by simpa using hf⟩
     exact ⟨.subdir, by simp [newStore, listImages, this]⟩
 
+/-- **the walks reach every plain file** (and nothing else): a data tree without symbolic links is
+    listed, and every plain file at any depth becomes a key, whatever its name (hidden names
+    included); an images directory whose top level holds plain files only is listed, and every one of
+    them becomes a key.  Conversely every key of a listed store is the path of a plain file. -/
+theorem listing_complete (t : Listing) :
+    ((∀ e ∈ t, e.2 ≠ .symlink) → ∃ s, newStore .data t = .ok s ∧
+        (∀ e ∈ t, e.2 = .file → keyOfNames e.1 ∈ keys s) ∧
+        (∀ k ∈ keys s, ∃ e ∈ t, e.2 = .file ∧ k = keyOfNames e.1)) ∧
+    ((∀ e ∈ t, e.1.length = 1 → e.2 = .file) → ∃ s, newStore .image t = .ok s ∧
+        (∀ e ∈ t, e.1.length = 1 → keyOfNames e.1 ∈ keys s) ∧
+        (∀ k ∈ keys s, ∃ e ∈ t, e.1.length = 1 ∧ e.2 = .file ∧ k = keyOfNames e.1)) := by
+  constructor
+  · intro h
+    have hany : t.any (fun e => e.2 == NodeKind.symlink) = false := by
+      rw [List.any_eq_false]; intro e he; simpa using h e he
+    refine ⟨⟨.data, ((t.filter fun e => e.2 == NodeKind.file).map fun e => keyOfNames e.1).map
+        fun k => (k, Cell.notLoaded)⟩, by simp [newStore, listData, hany], ?_, ?_⟩
+    · intro e he hf
+      simp only [keys, List.map_map, List.mem_map, Function.comp]
+      exact ⟨e, List.mem_filter.2 ⟨he, by simp [hf]⟩, rfl⟩
+    · intro k hk
+      simp only [keys, List.map_map, List.mem_map, Function.comp] at hk
+      obtain ⟨e, he, rfl⟩ := hk
+      have := List.mem_filter.1 he
+      exact ⟨e, this.1, by simpa using this.2, rfl⟩
+  · intro h
+    have hany : (t.filter fun e => e.1.length == 1).any (fun e => e.2 != NodeKind.file) = false := by
+      rw [List.any_eq_false]; intro e he
+      have := List.mem_filter.1 he
+      simp [h e this.1 (by simpa using this.2)]
+    refine ⟨⟨.image, ((t.filter fun e => e.1.length == 1).map fun e => keyOfNames e.1).map
+        fun k => (k, Cell.notLoaded)⟩, by simp [newStore, listImages, hany], ?_, ?_⟩
+    · intro e he hl
+      simp only [keys, List.map_map, List.mem_map, Function.comp]
+      exact ⟨e, List.mem_filter.2 ⟨he, by simp [hl]⟩, rfl⟩
+    · intro k hk
+      simp only [keys, List.map_map, List.mem_map, Function.comp] at hk
+      obtain ⟨e, he, rfl⟩ := hk
+      have := List.mem_filter.1 he
+      have hl : e.1.length = 1 := by simpa using this.2
+      exact ⟨e, this.1, hl, h e this.1 hl, rfl⟩
+
+
 /-! ## laziness -/
 
 /-- the first access to a lazy entry returns what the disk holds *at that moment* (validated), and
@@ -567,6 +610,11 @@ example :
     let w1 : Loc × StoreOrder.Bytes := ([['a']], [1])
     let w2 : Loc × StoreOrder.Bytes := ([['a'], ['b']], [2])
     writeAll (fun _ => none) [w1, w2] [['a']] ≠ writeAll (fun _ => none) [w2, w1] [['a']] := by decide
+-- hidden names are listed like any other: `.hidden`, `.cache/x`, `...`
+example : newStore .data [([['.', 'h']], .file), ([['.', 'c']], .dir), ([['.', 'c'], ['x']], .file),
+      ([['.', '.', '.']], .file)] =
+    .ok ⟨.data, [(['.', 'h'], .notLoaded), (['.', 'c', '/', 'x'], .notLoaded), (['.', '.', '.'], .notLoaded)]⟩ := by
+  decide
 -- an error entry refuses the save; a clean store reaches the effects
 example : (saveStores ⟨.data, [(['a'], .notLoaded)]⟩ ⟨.image, []⟩ (fun _ => none) (fun _ => none)).2
     = .refused ['a'] := by decide
